@@ -117,8 +117,21 @@ def r3(ctx: Ctx, prog: sf.SqlProgram) -> None:
     setsok = {c.parts[-1].lower(): text(v) for c, v in up.sets if c.kind == 'col'}
     ctx.check(okc and keyed and setsok.get('state') == "'complete'", 'R3', cons + '::like with like', 'a group is marked complete by a test other than n_completed(group) = n_jobs(group) of the very group being updated',
               r.file, r.line_of(up))
-    # called from mark_job_complete with the job's group
+    # the counts compared are read with a lock held to the end of the transaction: otherwise a commit that adds jobs can slip in
+    # between the read and the `complete` write and the fresh `running` state is overwritten
+    LOCKS = ('LOCK IN SHARE MODE', 'FOR SHARE', 'FOR UPDATE')
+    for st in sf.all_statements(lp.body):
+        if st.kind == 'select' and st.into and st.frm is not None and sf.table_names(st.frm) == ['job_groups'] and any(c.kind == 'col' and c.parts[-1].lower() == 'n_jobs' for c, _ in st.cols):
+            ctx.check(st.lock in LOCKS, 'R3', cons + '::n_jobs read is locking', 'job_groups.n_jobs is read without a lock: a concurrent commit_batch_update may add jobs after the read, '
+                      'and the group is then marked complete although it was just re-opened', r.file, r.line_of(st))
     r2_ = prog.routine('mark_job_complete')
+    nj = [st for st in sf.all_statements(r2_.ast.body) if st.kind == 'select' and st.into and st.frm is not None and sf.table_names(st.frm) == ['batches']
+          and any(c.kind == 'col' and c.parts[-1].lower() == 'n_jobs' for c, _ in st.cols)]
+    ctx.need(len(nj) == 1, 'mark_job_complete: read of batches.n_jobs not found')
+    ctx.check(nj[0].lock in LOCKS, 'R3', f'{r2_.file}::mark_job_complete::n_jobs read is locking', 'batches.n_jobs is read without a lock: commit_batch_update of a later update can commit between '
+              'this read and `UPDATE batches SET state = complete`; the stale count then overwrites the re-opened batch (complete with unfinished jobs that are never scheduled)',
+              r2_.file, r2_.line_of(nj[0]))
+    # called from mark_job_complete with the job's group
     calls = [s for s in sf.all_statements(r2_.ast.body) if s.kind == 'call' and s.name.lower() == 'mark_job_group_complete']
     ctx.check(len(calls) == 1 and [text(x).lower() for x in calls[0].args][:2] == ['in_batch_id', 'cur_job_group_id'], 'R3', f'{r2_.file}::mark_job_complete::CALL mark_job_group_complete',
               'group completion is not evaluated for the finished job\'s own group', r2_.file, r2_.line)
@@ -194,7 +207,7 @@ def run(ctx: Ctx) -> None:
     ctx.explanation = 'Structural check of completion bookkeeping in mark_job_complete / mark_job_group_complete / commit_batch_update and of the API readers.'
     ctx.rule('R1', 'tallies are incremented for the job\'s group and every ancestor', 1)
     ctx.rule('R2', 'per terminal state: completed +1 and exactly the matching category +1', 4)
-    ctx.rule('R3', 'completion tests compare n_completed with n_jobs of the same entity, for every ancestor', 4)
+    ctx.rule('R3', 'completion tests compare n_completed with n_jobs of the same entity, for every ancestor', 6)
     ctx.rule('R4', 'commit with jobs re-opens the batch and each staged group with the right job counts', 2)
     ctx.rule('R5', 'readers take tallies from the tally table on the entity\'s own key and copy them unmodified', 4)
     prog = sf.load_program()
